@@ -54,7 +54,7 @@ _CPH = 0x110000
 _CP3 = pick(0x100, 0x110000)  # pipeline item: quick = latin-1 (what a WSGI server can deliver); Unicode white space is in the CN item
 BOUNDS = (
     f"all characters = every code point 0..0x10FFFF; split stage: one hostile value len<={_N1} in any of 6 slots / len<={_N1S} as first Subject, or both Subjects len<={_N1B}/{_N1B - 1}; "
-    f"value extraction: len<={_N2} (Subject/Hash/DNS), len<={_N2U} (URI/By); pipeline: hostile suffix len<={_N3} (code points below {_CP3:#x}) in either Subject; "
+    f"value extraction: len<={_N2} (Subject/Hash/DNS), len<={_N2U} (URI/By); pipeline: hostile suffix len<={_N3} (code points below {_CP3:#x}) in either Subject, quoted (Envoy rendering) and raw after an unquoted value (not , ; or double quote); "
     f"arbitrary header: any single character, any latin-1 string len<={_NH}, and every string len<={_NA} over the structural alphabet \" \\ , ; = space % a B; blank headers: len<={_NB} over space/comma/tab"
 )
 OUTSIDE = (
